@@ -14,6 +14,7 @@ import (
 	"net"
 	"os"
 	"path/filepath"
+	"reflect"
 	"regexp"
 	"runtime"
 	"sort"
@@ -64,6 +65,10 @@ func init() {
 			"Session creation repeated on the same objects: in a third of the TLS cells NewSession(*cfg) / cfg.CreateSession() is called a second (in a ninth a third) time with the very same ClusterConfig, *SslOptions and *tls.Config after the previous attempt finished and its session, if any, was closed; the documented outcome must hold for every attempt (fault counters tls.variant:attempts:*, probes tls.retry:*). " +
 			"Form of the password authenticator (both halves): value, pointer, user type embedding it (value / pointer), user type delegating to it (auth.variant:form:* / tls.variant:authform:*); " +
 			"AllowedAuthenticators additionally: empty non-nil, a list that contains the demanded class whatever it is, a list of near-misses of the demanded class, the default list written out plus a custom class (auth.variant:list:*, probes auth.formcell:* / auth.listcell:*). " +
+			"Further legal shapes of the caller's tls.Config (TLS half, Config present; all combined freely with the table above): its own VerifyPeerCertificate / VerifyConnection / both as pure observers (tls.variant:observer:*, the table once more under them: probes tls.obscell:*); " +
+			"MinVersion / MaxVersion {min 1.2, min 1.3, max 1.2, max 1.3, only 1.2, only 1.3, 1.2 to 1.3} (tls.variant:versions:*; demanding 1.3 of a node that speaks 1.2 at most = no connection, tls.variant:versions-clash-with-node); NextProtos offered / negotiated (tls.variant:nextprotos:*); " +
+			"GetClientCertificate set by the caller (tls.variant:user-getclientcertificate, with every key-pair variant: ...+keypair:*); Certificates preset in an array with spare capacity, alone or shared with another Config of the caller (tls.variant:usercerts, usercerts-shared-backing-array, usercerts+keypair); RootCAs preset together with CaPath (tls.variant:rootcas+capath); " +
+			"and a node that does not ask for a client certificate (tls.variant:node-no-client-cert-request, ...+bad-keypair). Judged: the documented outcome of the cell is the same, bad files are still reported before any dial, the caller's Config is unchanged in every field the scenario set, and the handshakes were made with the caller's callbacks, version bounds and protocols. " +
 			"distinct = distinct canonical-log fingerprint; non-trivial = at least one non-default variant (tls.variant:* / auth.variant:* fault counters) and at least one completed session attempt",
 	})
 }
@@ -380,6 +385,8 @@ type secTLSConn struct {
 	sni         string
 	version     uint16
 	clientCerts int
+	alpn        []string // the protocols the client offered (ALPN), as the node saw them
+	negotiated  string
 	needAuth    bool
 	authed      bool
 	started     bool
@@ -439,6 +446,7 @@ func (n *secTLSNode) serve(p *simnet.Pipe, sc *secTLSConn) {
 	cfg.GetConfigForClient = func(chi *tls.ClientHelloInfo) (*tls.Config, error) {
 		n.mu.Lock()
 		sc.sni = chi.ServerName
+		sc.alpn = append([]string(nil), chi.SupportedProtos...)
 		n.mu.Unlock()
 		return nil, nil
 	}
@@ -455,9 +463,15 @@ func (n *secTLSNode) serve(p *simnet.Pipe, sc *secTLSConn) {
 	sc.handshook = true
 	sc.version = st.Version
 	sc.clientCerts = len(st.PeerCertificates)
+	sc.negotiated = st.NegotiatedProtocol
 	sni := sc.sni
+	alpn := sc.alpn
 	n.mu.Unlock()
-	n.k.Rec("tls %s handshake ok version=%#x sni=%q clientcerts=%d", sc.name, st.Version, sni, len(st.PeerCertificates))
+	if len(alpn) == 0 {
+		n.k.Rec("tls %s handshake ok version=%#x sni=%q clientcerts=%d", sc.name, st.Version, sni, len(st.PeerCertificates))
+	} else {
+		n.k.Rec("tls %s handshake ok version=%#x sni=%q clientcerts=%d alpn=%q negotiated=%q", sc.name, st.Version, sni, len(st.PeerCertificates), alpn, st.NegotiatedProtocol)
+	}
 
 	var buf []byte
 	tmp := make([]byte, 4096)
@@ -621,6 +635,65 @@ var (
 	secGarbageTxt = "this is not PEM\n-----BEGIN NOTHING-----\nAAAA\n"
 )
 
+// Further legal shapes of the caller's tls.Config (index 0 everywhere = the field is not set).
+var (
+	secObsNames = []string{"none", "verifypeercertificate", "verifyconnection", "both"}
+	// MinVersion / MaxVersion of the caller's Config
+	secVerNames = []string{"unset", "min12", "min13", "max12", "max13", "only12", "only13", "12to13"}
+	secVerMin   = []uint16{0, tls.VersionTLS12, tls.VersionTLS13, 0, 0, tls.VersionTLS12, tls.VersionTLS13, tls.VersionTLS12}
+	secVerMax   = []uint16{0, 0, 0, tls.VersionTLS12, tls.VersionTLS13, tls.VersionTLS12, tls.VersionTLS13, tls.VersionTLS13}
+	// NextProtos of the caller's Config: offered only (the node knows no ALPN), or negotiated
+	secALPNNames = []string{"unset", "offered", "negotiated"}
+)
+
+const secALPNProto = "cql-sim"
+
+// secJudgeCertBackingArray: the driver appends the CertPath/KeyPath pair to the clone of the
+// caller's Config; Config.Clone copies the slice header of Certificates, so with spare
+// capacity the append writes into the caller's backing array (and into the element of any
+// other slice of the caller that shares it). The property speaks of the verification
+// settings of the caller's Config only, and the client identity is not one of them:
+// observed (probes tls.user-certificates-*), not judged.
+const secJudgeCertBackingArray = false
+
+// secUserCallbacks are the caller's own callbacks in its tls.Config: pure observers. They
+// run on the driver's handshake goroutines.
+type secUserCallbacks struct {
+	vpc, vpcVerified atomic.Int32 // VerifyPeerCertificate calls; those that got verified chains
+	vc, vcVerified   atomic.Int32 // VerifyConnection calls; those whose state has verified chains
+	gcc              atomic.Int32 // GetClientCertificate calls
+}
+
+type secCallbackCounts struct{ vpc, vpcVerified, vc, vcVerified, gcc int32 }
+
+func (o *secUserCallbacks) counts() secCallbackCounts {
+	return secCallbackCounts{o.vpc.Load(), o.vpcVerified.Load(), o.vc.Load(), o.vcVerified.Load(), o.gcc.Load()}
+}
+
+func (o *secUserCallbacks) verifyPeerCertificate(rawCerts [][]byte, verifiedChains [][]*x509.Certificate) error {
+	o.vpc.Add(1)
+	if len(verifiedChains) > 0 {
+		o.vpcVerified.Add(1)
+	}
+	return nil
+}
+
+func (o *secUserCallbacks) verifyConnection(cs tls.ConnectionState) error {
+	o.vc.Add(1)
+	if len(cs.VerifiedChains) > 0 {
+		o.vcVerified.Add(1)
+	}
+	return nil
+}
+
+func secFuncPtr(f interface{}) uintptr {
+	v := reflect.ValueOf(f)
+	if !v.IsValid() || v.IsNil() {
+		return 0
+	}
+	return v.Pointer()
+}
+
 func secTLS(e *Env) {
 	k := e.K
 	tp := k.Tape
@@ -654,6 +727,25 @@ func secTLS(e *Env) {
 	if !authTLS {
 		authForm = 0
 	}
+	// (drawn last again) further legal shapes of the caller's tls.Config, and a node that does
+	// not ask for a client certificate
+	obsSel := tp.Weighted([]int{4, 1, 1, 2})             // the caller's own verification callbacks (pure observers)
+	verSel := tp.Weighted([]int{8, 1, 1, 1, 1, 1, 1, 1}) // MinVersion / MaxVersion
+	alpnSel := tp.Weighted([]int{6, 1, 1})               // NextProtos
+	userGCC := tp.Chance(1, 4)                           // GetClientCertificate set by the caller
+	certSibling := tp.Chance(1, 2)                       // with userCerts: another slice of the caller shares the backing array
+	noClientAuth := tp.Chance(1, 4)                      // the node does not ask for a client certificate
+	if cfgState == 0 {
+		obsSel, verSel, alpnSel, userGCC = 0, 0, 0, false
+	}
+	if !userCerts {
+		certSibling = false
+	}
+	// the caller demands TLS 1.3 and the node speaks 1.2 at most: no connection, whatever the table says
+	versionClash := tls12 && secVerMin[verSel] == tls.VersionTLS13
+	if e.NoFaults && versionClash {
+		verSel, versionClash = 0, false
+	}
 	if e.NoFaults {
 		swapDraw = false
 		certKind = 0
@@ -685,7 +777,7 @@ func secTLS(e *Env) {
 	// (net.LookupIP); the dialler gets the IP, the name to verify is the name.
 	nameForm := hostForm >= 4
 	twoNodes := twoDraw && !nameForm && ((!cfgPresent && ehv) || (cfgPresent && !(isv && !ehv))) && sn == 0 &&
-		caSel < secCaBadFrom && kpSel < secKPBadFrom && (caSel == 1 || caSel == 3 || rootSel == 1)
+		caSel < secCaBadFrom && kpSel < secKPBadFrom && (caSel == 1 || caSel == 3 || rootSel == 1) && !versionClash
 	swapped := twoNodes && swapDraw // the second node presents the FIRST node's certificate
 	if twoNodes {
 		certKind = 3 // only the node's own IP
@@ -704,6 +796,10 @@ func secTLS(e *Env) {
 		{caSel != 0, "capath:" + secCaNames[caSel]}, {kpSel != 0, "keypair:" + secKPNames[kpSel]}, {hostForm != 0, "host:" + secHostNames[hostForm]},
 		{control, "controlconn"}, {tls12, "tls12"}, {authTLS, "auth"}, {userCerts, "usercerts"},
 		{attempts > 1, fmt.Sprintf("attempts:%d", attempts)}, {viaCreate, "retry-via-createsession"}, {authForm != 0, "authform:" + secAuthForms[authForm]},
+		{obsSel != 0, "observer:" + secObsNames[obsSel]}, {verSel != 0, "versions:" + secVerNames[verSel]}, {versionClash, "versions-clash-with-node"},
+		{alpnSel != 0, "nextprotos:" + secALPNNames[alpnSel]}, {userGCC, "user-getclientcertificate"}, {userGCC && kpSel != 0, "user-getclientcertificate+keypair:" + secKPNames[kpSel]},
+		{certSibling, "usercerts-shared-backing-array"}, {userCerts && kpSel == 1, "usercerts+keypair"}, {rootSel != 0 && caSel != 0, "rootcas+capath"},
+		{noClientAuth, "node-no-client-cert-request"}, {noClientAuth && kpSel >= secKPBadFrom, "node-no-client-cert-request+bad-keypair"},
 	} {
 		if v.on {
 			k.Fault("tls.variant:" + v.name)
@@ -732,6 +828,16 @@ func secTLS(e *Env) {
 	if authForm != 0 {
 		k.Rec("cell authform=%s", secAuthForms[authForm])
 		e.Note("authform", secAuthForms[authForm])
+	}
+	moreShapes := obsSel != 0 || verSel != 0 || alpnSel != 0 || userGCC || certSibling || noClientAuth
+	if moreShapes {
+		k.Rec("cell observers=%s versions=%s nextprotos=%s user-getclientcertificate=%v usercerts-shared=%v node-asks-client-cert=%v",
+			secObsNames[obsSel], secVerNames[verSel], secALPNNames[alpnSel], userGCC, certSibling, !noClientAuth)
+		e.Note("observers", secObsNames[obsSel])
+		e.Note("versions", secVerNames[verSel])
+		e.Note("nextprotos", secALPNNames[alpnSel])
+		e.Note("usergcc", userGCC)
+		e.Note("nodeasksclientcert", !noClientAuth)
 	}
 
 	// ---- addresses ----
@@ -871,6 +977,10 @@ func secTLS(e *Env) {
 	var user *tls.Config
 	var userPool, userPoolBefore *x509.CertPool
 	var userCertArr []tls.Certificate
+	var siblingCfg *tls.Config // another Config of the caller (for another service) whose Certificates share the backing array
+	var siblingDER []byte
+	var userNP []string
+	cb := &secUserCallbacks{}
 	if cfgPresent {
 		user = &tls.Config{InsecureSkipVerify: isv}
 		switch sn {
@@ -897,12 +1007,51 @@ func secTLS(e *Env) {
 			userCertArr = make([]tls.Certificate, 1, 4)
 			userCertArr[0] = own.tlsCert
 			user.Certificates = userCertArr
+			if certSibling {
+				// the caller keeps its certificates in one array: this Config uses the first,
+				// a Config for another service the first two
+				otherSvc := ca1.issue("client-other-service", 23, nil, nil, true)
+				siblingCfg = &tls.Config{Certificates: append(userCertArr[:1], otherSvc.tlsCert)}
+				siblingDER = otherSvc.tlsCert.Certificate[0]
+			}
+		}
+		if obsSel == 1 || obsSel == 3 {
+			user.VerifyPeerCertificate = cb.verifyPeerCertificate
+		}
+		if obsSel == 2 || obsSel == 3 {
+			user.VerifyConnection = cb.verifyConnection
+		}
+		user.MinVersion, user.MaxVersion = secVerMin[verSel], secVerMax[verSel]
+		switch alpnSel {
+		case 1:
+			userNP = append(make([]string, 0, 4), secALPNProto)
+		case 2:
+			userNP = append(make([]string, 0, 4), "sim-other", secALPNProto)
+		}
+		user.NextProtos = userNP
+		if userGCC {
+			// the caller chooses its client certificate itself
+			chosen := ca1.issue("client-chosen", 24, nil, nil, true)
+			user.GetClientCertificate = func(*tls.CertificateRequestInfo) (*tls.Certificate, error) {
+				cb.gcc.Add(1)
+				return &chosen.tlsCert, nil
+			}
 		}
 		ssl.Config = user
 	}
 	snapISV, snapSN, snapRoots, snapNCerts := false, "", (*x509.CertPool)(nil), 0
+	var snapMin, snapMax uint16
+	var snapVPC, snapVC, snapGCC uintptr
+	snapNP := append([]string(nil), userNP...)
 	if user != nil {
 		snapISV, snapSN, snapRoots, snapNCerts = user.InsecureSkipVerify, user.ServerName, user.RootCAs, len(user.Certificates)
+		snapMin, snapMax = user.MinVersion, user.MaxVersion
+		snapVPC, snapVC, snapGCC = secFuncPtr(user.VerifyPeerCertificate), secFuncPtr(user.VerifyConnection), secFuncPtr(user.GetClientCertificate)
+	}
+	// the version a handshake between the caller's bounds and the node's ends with
+	wantVersion := uint16(tls.VersionTLS13)
+	if tls12 || secVerMax[verSel] == tls.VersionTLS12 {
+		wantVersion = tls.VersionTLS12
 	}
 
 	// ---- expected outcome: from the documented table, not from the code ----
@@ -933,8 +1082,16 @@ func secTLS(e *Env) {
 			}
 		}
 	}
-	expectConnect := !verify || (chainOK && nameOK)
+	expectConnect := (!verify || (chainOK && nameOK)) && !versionClash
 	k.Rec("expect verify=%v chain=%v name=%v badfile=%v connect=%v", verify, chainOK, nameOK, badFile, expectConnect && !badFile)
+	if versionClash {
+		k.Rec("expect no common protocol version")
+	}
+	if !badFile && obsSel != 0 && !versionClash {
+		// the documented table once more, with the caller's own verification callbacks present
+		k.Probe(fmt.Sprintf("tls.obscell:%s/ehv=%v/sn=%s/chain=%v/%s", secCfgNames[cfgState], ehv, secSNNames[sn], chainOK, secCertNames[certKind]))
+		k.Probe(fmt.Sprintf("tls.obsexpect:%s/verify=%v,connect=%v", secObsNames[obsSel], verify, expectConnect))
+	}
 	if !badFile {
 		k.Probe(fmt.Sprintf("tls.cell:%s/ehv=%v/sn=%s/chain=%v/%s", secCfgNames[cfgState], ehv, secSNNames[sn], chainOK, secCertNames[certKind]))
 		k.Probe(fmt.Sprintf("tls.expect:verify=%v,chain=%v,name=%v", verify, chainOK, nameOK))
@@ -957,6 +1114,12 @@ func secTLS(e *Env) {
 	srvCfg := &tls.Config{Certificates: []tls.Certificate{leaf.tlsCert}, ClientAuth: tls.RequestClientCert, CurvePreferences: []tls.CurveID{tls.X25519}}
 	if tls12 {
 		srvCfg.MaxVersion = tls.VersionTLS12
+	}
+	if noClientAuth {
+		srvCfg.ClientAuth = tls.NoClientCert
+	}
+	if alpnSel == 2 {
+		srvCfg.NextProtos = []string{secALPNProto}
 	}
 	authClass, authUser, authPass := "", "cassandra", "sécret-パス"
 	if authTLS {
@@ -1023,6 +1186,28 @@ func secTLS(e *Env) {
 	if authForm != 0 {
 		desc = desc[:len(desc)-1] + ", authenticator form " + secAuthForms[authForm] + "]"
 	}
+	if moreShapes {
+		more := ""
+		if obsSel != 0 {
+			more += ", the caller's Config has its own " + map[int]string{1: "VerifyPeerCertificate", 2: "VerifyConnection", 3: "VerifyPeerCertificate and VerifyConnection"}[obsSel] + " (observing, always nil)"
+		}
+		if verSel != 0 {
+			more += fmt.Sprintf(", Config.MinVersion=%#x MaxVersion=%#x", secVerMin[verSel], secVerMax[verSel])
+		}
+		if alpnSel != 0 {
+			more += fmt.Sprintf(", Config.NextProtos=%q", snapNP)
+		}
+		if userGCC {
+			more += ", Config.GetClientCertificate set"
+		}
+		if certSibling {
+			more += ", Config.Certificates shares its array with another slice of the caller"
+		}
+		if noClientAuth {
+			more += ", the node does not ask for a client certificate"
+		}
+		desc = desc[:len(desc)-1] + more + "]"
+	}
 
 	// runAttempt makes one session creation attempt and judges it. It returns the session
 	// (nil if none was created) and whether the run can go on with another attempt.
@@ -1034,6 +1219,7 @@ func secTLS(e *Env) {
 		}
 		// what earlier attempts left behind does not belong to this one
 		dials0 := cl.Net.Dials()
+		cb0 := cb.counts()
 		_, errsBefore := obs.snapshot()
 		errs0 := len(errsBefore)
 		conns0 := len(tn.snapshot())
@@ -1094,6 +1280,19 @@ func secTLS(e *Env) {
 				return
 			}
 
+			// ---- the caller's protocol version bounds hold, whatever the table says ----
+			if versionClash {
+				switch {
+				case connected || accepted:
+					violate("C20", "C20/user-config-not-carried-over:version-bounds", "%s: the caller's Config demands TLS 1.3 and the node speaks TLS 1.2 at most, yet the driver completed a TLS handshake (session created=%v): it did not dial with the caller's MinVersion", desc, connected)
+				case dials == 0 || len(dialErrs) == 0 || certErr:
+					violate("HARNESS", "sec/unexpected-failure", "%s: expected a refused protocol version, got %v after %d dial(s) (first dial error: %v)", desc, serr, dials, firstDialErr)
+				default:
+					probe("tls.version-clash-refused")
+				}
+				return
+			}
+
 			// ---- verification exactly when documented ----
 			switch {
 			case (connected || accepted) && !expectConnect:
@@ -1135,8 +1334,63 @@ func secTLS(e *Env) {
 			}
 			probe("tls.connected-as-documented")
 
+			// ---- what else the caller put into its Config is what the driver dials with ----
+			if moreShapes {
+				nHS := int32(0)
+				for _, c := range conns {
+					if !c.handshook {
+						continue
+					}
+					nHS++
+					if verSel != 0 && c.version != wantVersion {
+						violate("C20", "C20/user-config-not-carried-over:version-bounds", "%s: connection %s negotiated version %#x; with the caller's bounds and the node's (TLS 1.2 only: %v) it must be %#x", desc, c.name, c.version, tls12, wantVersion)
+						return
+					}
+					if alpnSel != 0 && strings.Join(c.alpn, ",") != strings.Join(snapNP, ",") {
+						violate("C20", "C20/user-config-not-carried-over:next-protos", "%s: connection %s offered the protocols %q", desc, c.name, c.alpn)
+						return
+					}
+					if alpnSel == 2 && c.negotiated != secALPNProto {
+						violate("C20", "C20/user-config-not-carried-over:next-protos", "%s: connection %s negotiated the protocol %q, the node and the caller have %q in common", desc, c.name, c.negotiated, secALPNProto)
+						return
+					}
+				}
+				// (the node completes a handshake only after the client has verified, called the
+				// caller's callbacks and chosen its certificate, and the counters are read after
+				// the connections were counted)
+				d := cb.counts()
+				if (obsSel == 1 || obsSel == 3) && d.vpc-cb0.vpc < nHS {
+					violate("C20", "C20/user-verify-callback-not-called", "%s: %d handshake(s) completed, the caller's VerifyPeerCertificate was called %d time(s): the driver did not dial with the caller's verification callback", desc, nHS, d.vpc-cb0.vpc)
+					return
+				}
+				if (obsSel == 2 || obsSel == 3) && d.vc-cb0.vc < nHS {
+					violate("C20", "C20/user-verify-callback-not-called", "%s: %d handshake(s) completed, the caller's VerifyConnection was called %d time(s): the driver did not dial with the caller's verification callback", desc, nHS, d.vc-cb0.vc)
+					return
+				}
+				if userGCC && !noClientAuth && d.gcc-cb0.gcc < nHS {
+					violate("C20", "C20/user-config-not-carried-over:get-client-certificate", "%s: %d handshake(s) in which the node asked for a client certificate completed, the caller's GetClientCertificate was called %d time(s)", desc, nHS, d.gcc-cb0.gcc)
+					return
+				}
+				if obsSel != 0 {
+					probe("tls.observer-called:" + secObsNames[obsSel])
+					// what the observers saw of the standard verification: observed, not judged (a
+					// driver may verify by other means than crypto/tls's own)
+					sawVerified := d.vpcVerified-cb0.vpcVerified > 0 || d.vcVerified-cb0.vcVerified > 0
+					probe(fmt.Sprintf("tls.observer-saw:verify=%v,verified-chains=%v", verify, sawVerified))
+				}
+				if verSel != 0 {
+					probe("tls.versions-carried:" + secVerNames[verSel])
+				}
+				if alpnSel != 0 {
+					probe("tls.nextprotos-carried:" + secALPNNames[alpnSel])
+				}
+				if userGCC && !noClientAuth {
+					probe("tls.user-getclientcertificate-called")
+				}
+			}
+
 			// ---- a valid key pair is used ----
-			if kpSel == 1 {
+			if kpSel == 1 && !noClientAuth && !userGCC { // (which of the two the client presents when the caller chooses itself is not documented)
 				for _, c := range conns {
 					if c.handshook && c.clientCerts == 0 {
 						violate("C20", "C20/client-cert-not-presented", "%s: connection %s completed a handshake in which the node asked for a client certificate and got none, although CertPath/KeyPath name a valid key pair", desc, c.name)
@@ -1260,17 +1514,50 @@ func secTLS(e *Env) {
 			violate("C20", "C20/user-ssloptions-mutated", "%s: the caller's SslOptions changed: Config pointer changed=%v, EnableHostVerification %v->%v, CaPath %q->%q, CertPath %q->%q, KeyPath %q->%q",
 				desc, ssl.Config != sslBefore.Config, sslBefore.EnableHostVerification, ssl.EnableHostVerification, sslBefore.CaPath, ssl.CaPath, sslBefore.CertPath, ssl.CertPath, sslBefore.KeyPath, ssl.KeyPath)
 		}
+		npIntact := func() bool { // the caller's NextProtos, and the spare capacity of its array
+			if len(user.NextProtos) != len(snapNP) {
+				return false
+			}
+			for i := range snapNP {
+				if user.NextProtos[i] != snapNP[i] {
+					return false
+				}
+			}
+			for _, s := range userNP[len(userNP):cap(userNP)] {
+				if s != "" {
+					return false
+				}
+			}
+			return true
+		}
 		if user != nil && k.Violation() == nil {
 			switch {
 			case user.InsecureSkipVerify != snapISV || user.ServerName != snapSN || user.RootCAs != snapRoots || len(user.Certificates) != snapNCerts:
 				violate("C20", "C20/user-config-mutated", "%s: the caller's tls.Config changed: InsecureSkipVerify %v->%v, ServerName %q->%q, RootCAs pointer changed=%v, len(Certificates) %d->%d",
 					desc, snapISV, user.InsecureSkipVerify, snapSN, user.ServerName, user.RootCAs != snapRoots, snapNCerts, len(user.Certificates))
+			case secFuncPtr(user.VerifyPeerCertificate) != snapVPC || secFuncPtr(user.VerifyConnection) != snapVC:
+				violate("C20", "C20/user-config-mutated", "%s: the caller's tls.Config changed: VerifyPeerCertificate set %v->%v (replaced=%v), VerifyConnection set %v->%v (replaced=%v)", desc,
+					snapVPC != 0, user.VerifyPeerCertificate != nil, secFuncPtr(user.VerifyPeerCertificate) != snapVPC, snapVC != 0, user.VerifyConnection != nil, secFuncPtr(user.VerifyConnection) != snapVC)
+			case user.MinVersion != snapMin || user.MaxVersion != snapMax || secFuncPtr(user.GetClientCertificate) != snapGCC ||
+				!npIntact():
+				violate("C20", "C20/user-config-mutated", "%s: the caller's tls.Config changed: MinVersion %#x->%#x, MaxVersion %#x->%#x, GetClientCertificate set %v->%v (replaced=%v), NextProtos %q->%q (its array, to capacity: %q)", desc,
+					snapMin, user.MinVersion, snapMax, user.MaxVersion, snapGCC != 0, user.GetClientCertificate != nil, secFuncPtr(user.GetClientCertificate) != snapGCC, snapNP, user.NextProtos, userNP[:cap(userNP)])
 			case userPoolBefore != nil && !userPool.Equal(userPoolBefore):
 				violate("C20", "C20/user-config-rootcas-pool-mutated", "%s: the certificate pool the caller's tls.Config.RootCAs points to was modified by session creation (the certificates of CaPath were added to the caller's own pool, which now trusts CAs the caller did not put there, in every tls.Config sharing it)", desc)
 			case userCertArr != nil:
-				if spare := userCertArr[:cap(userCertArr)]; len(spare[1].Certificate) != 0 {
-					// client identity, not a verification setting: observed, not judged
+				// client identity, not a verification setting: observed, not judged (secJudgeCertBackingArray)
+				spare := userCertArr[:cap(userCertArr)]
+				switch {
+				case siblingCfg != nil && (len(siblingCfg.Certificates) != 2 || len(siblingCfg.Certificates[1].Certificate) != 1 || !bytes.Equal(siblingCfg.Certificates[1].Certificate[0], siblingDER)):
+					probe("tls.user-certificates-other-config-of-the-caller-overwritten")
+					if secJudgeCertBackingArray {
+						violate("C20", "C20/user-certificates-backing-array-written", "%s: session creation wrote the CertPath/KeyPath certificate into the array behind the caller's Config.Certificates (beyond its length): another tls.Config of the caller, whose Certificates share that array, now presents the driver's certificate instead of its own second one", desc)
+					}
+				case siblingCfg == nil && len(spare[1].Certificate) != 0:
 					probe("tls.user-certificates-spare-capacity-written")
+					if secJudgeCertBackingArray {
+						violate("C20", "C20/user-certificates-backing-array-written", "%s: session creation wrote the CertPath/KeyPath certificate into the spare capacity of the array behind the caller's Config.Certificates", desc)
+					}
 				}
 			}
 		}
